@@ -33,7 +33,8 @@ func ruleFlagNonInterference(c *Ctx, r *Report, rule string) {
 		return "", false
 	}
 	n := 0
-	for obj, fd := range c.funcDecls {
+	for _, it := range c.sortedDecls() {
+		obj, fd := it.obj, it.fd
 		if obj.Pkg() == nil || obj.Pkg().Path() != bclPath || fd.Body == nil {
 			continue
 		}
